@@ -504,6 +504,85 @@ func runC03(c *mc.Ctx) {
 		}
 	}
 
+	// (4b) the implementation's unit syndromes at the longest standard length agree with the
+	// specification's generator (also on the quick tier: a remainder that degrades only on long inputs)
+	if Lmax < 112 {
+		b112 := symbolsOf(c03CashBase(prefix0, 112), ref.CashCharset)
+		U112 := unitTable(112, func(sym []byte) uint64 { return cashSyn(prefix0, sym) }, b112)
+		R112 := unitTable(112, func(sym []byte) uint64 { return refCashSyn(prefix0, sym) }, b112)
+		for pos := 0; pos < 112; pos++ {
+			for v := 1; v < 32; v++ {
+				c.Evals.Add(1)
+				if U112[pos][v] != R112[pos][v] {
+					c.Violate("cashaddr-remainder-differs-from-spec-generator", "cash-codeword", c03Codeword{Prefix: prefix0, Len: 112, Subs: []sub{{pos, v}}},
+						fmt.Sprintf("unit syndrome at pos %d val %d (L=112): impl %010x spec %010x", pos, v, U112[pos][v], R112[pos][v]))
+					pos = 112
+					break
+				}
+			}
+		}
+	}
+	// (5) every one of the 256 byte values at every payload position of a valid string: only the
+	// original character (in either case... the string is lower case, so only itself) may be accepted
+	for _, L := range []int{42, 61, 112} {
+		basePayload := c03CashBase(prefix0, L)
+		var bad atomic.Int64
+		c.Space(fmt.Sprintf("all 256 byte values at every payload position, L=%d", L), int64(L*256))
+		c.ParFor(int64(L*256), func(w *mc.W, i int64) {
+			pos, v := int(i/256), byte(i%256)
+			if basePayload[pos] == v {
+				return
+			}
+			m := []byte(basePayload)
+			m[pos] = v
+			w.Eval()
+			w.Trace()
+			var err error
+			if msg, p := mc.Guard(func() { _, _, err = bchutil.DecodeCashAddress(prefix0 + ":" + string(m)) }); p {
+				c.Violate("cashaddr-decoder-panics-on-corrupted-string", "cash-string", c03Str{Prefix: prefix0, Base: basePayload, Via: "DecodeCashAddress"}, msg)
+				return
+			}
+			if err == nil && bad.Add(1) <= 3 {
+				c.Violate("cashaddr-accepts-a-substituted-byte", "cash-string", c03Str{Prefix: prefix0, Base: basePayload, Via: "DecodeCashAddress"},
+					fmt.Sprintf("position %d replaced by byte %#02x is accepted: %q", pos, v, string(m)))
+			}
+		})
+		// the same on the all-upper-case spelling (a byte equal to the original character in either case is the same symbol)
+		upper := strings.ToUpper(prefix0 + ":" + basePayload)
+		off := len(prefix0) + 1
+		c.ParFor(int64(L*256), func(w *mc.W, i int64) {
+			pos, v := int(i/256), byte(i%256)
+			if upper[off+pos] == v {
+				return
+			}
+			m := []byte(upper)
+			m[off+pos] = v
+			w.Eval()
+			w.Trace()
+			var err error
+			if msg, p := mc.Guard(func() { _, _, err = bchutil.DecodeCashAddress(string(m)) }); p {
+				c.Violate("cashaddr-decoder-panics-on-corrupted-string", "cash-string", c03Str{Prefix: prefix0, Base: basePayload, Via: "DecodeCashAddress"}, msg)
+				return
+			}
+			if err == nil && bad.Add(1) <= 3 {
+				c.Violate("cashaddr-accepts-a-substituted-byte", "cash-string", c03Str{Prefix: prefix0, Base: basePayload, Via: "DecodeCashAddress"},
+					fmt.Sprintf("upper-case spelling: position %d replaced by byte %#02x is accepted: %q", pos, v, string(m)))
+			}
+		})
+		if L == 42 {
+			for _, spell := range []string{prefix0 + ":" + basePayload, upper} {
+				for _, m := range runeSubstitutions(spell) {
+					w := c.Worker()
+					w.Eval()
+					if _, _, err := bchutil.DecodeCashAddress(m); err == nil && bad.Add(1) <= 3 {
+						c.Violate("cashaddr-accepts-a-substituted-byte", "cash-string", c03Str{Prefix: prefix0, Base: basePayload, Via: "DecodeCashAddress"}, fmt.Sprintf("non-ASCII rune accepted: %q", m))
+					}
+					w.Done()
+				}
+			}
+		}
+	}
+
 	// (2)+(3) replay through the real decoder: every weight<=2 pattern
 	type job struct {
 		prefix string
@@ -516,6 +595,18 @@ func runC03(c *mc.Ctx) {
 			continue
 		}
 		jobs = append(jobs, job{prefix0, L, "DecodeCashAddress"})
+	}
+	if c.Quick() { // weight-1 replay at the long standard lengths as well
+		for _, L := range cashLens {
+			if L > 61 {
+				basePayload := c03CashBase(prefix0, L)
+				c.ParFor(int64(L), func(w *mc.W, i int64) {
+					for a := 1; a < 32; a++ {
+						c03EvalCashString(w, c03Str{Prefix: prefix0, Base: basePayload, Subs: []sub{{int(i), a}}, Via: "DecodeCashAddress"})
+					}
+				})
+			}
+		}
 	}
 	for _, p := range cashPrefixes[1:] {
 		if c.Quick() {
